@@ -206,8 +206,10 @@ def handleTrace (ts : List String) : String :=
     | some n, some k =>
       match parseEvents n k rest with
       | some evs =>
-        if ProjTrace.accept allclose evs then "ok"
-        else match ProjTrace.firstReject allclose evs {} 0 with
+        -- after the fix "always start from the projection of x0" solve() no longer consults np.allclose:
+        -- the model's `close` input is constantly false (the theorems hold for every `close`)
+        if ProjTrace.accept (fun _ _ => false) evs then "ok"
+        else match ProjTrace.firstReject (fun _ _ => false) evs {} 0 with
           | some (i, msg) => s!"reject {i} {msg}"
           | none => "reject ? inconsistent"
       | none => "bad-op events"
